@@ -540,15 +540,17 @@ def project_wide(ctx):
 FUSE = [("implicit none", None), ("use local_mod", "a.f90"), ("use base_mod", "b.f90"), ("use tools_mod", "c.f90"), ("USE BASE_MOD", "b.f90")]
 
 
-def _file_files(u1, u2, u3):
-    return {"a.f90": ["module local_mod", "integer :: l", "end module local_mod", "module app_mod", u1, u2, "integer :: a", "end module app_mod",
+def _file_files(u1, u2, u3, u4="implicit none"):
+    # u4: a USE inside an internal procedure of a module procedure (two levels below the module)
+    return {"a.f90": ["module local_mod", "integer :: l", "end module local_mod", "module app_mod", u1, u2, "integer :: a", "contains",
+                      "subroutine outer()", "contains", "subroutine inner()", u4, "end subroutine inner", "end subroutine outer", "end module app_mod",
                       "submodule (local_mod) local_impl", u3, "end submodule local_impl"],
             "b.f90": ["module base_mod", "integer :: b", "end module base_mod"],
             "c.f90": ["module tools_mod", "integer :: t", "end module tools_mod"]}
 
 
-def file_rule(t1, t2, t3):
-    eff = {"a.f90": sorted({t for t in (t1, t2, t3) if t and t != "a.f90"}), "b.f90": [], "c.f90": []}
+def file_rule(t1, t2, t3, t4=None):
+    eff = {"a.f90": sorted({t for t in (t1, t2, t3, t4) if t and t != "a.f90"}), "b.f90": [], "c.f90": []}
     aff = {f: sorted(g for g in eff if f in eff[g]) for f in eff}
     return {"efferent": eff, "afferent": aff}
 
@@ -575,26 +577,26 @@ def replay_files(w):
             got = _file_observe(p)
     finally:
         sf.namelist = old
-    return got != w["expected"], {"use statements (app_mod, app_mod, submodule)": w["uses"], "ford": got, "declared": w["expected"]}
+    return got != w["expected"], {"use statements (app_mod, app_mod, submodule, internal procedure of a procedure of app_mod)": w["uses"], "ford": got, "declared": w["expected"]}
 
 
 @obligation("C13", "O4.file-dependency-nodes", engine="SX(CV)", timeout=900)
 def file_nodes(ctx):
-    """three files; a module with two symbolic USE statements and a submodule (whose first dependency is its same-file ancestor) with
-    one: the file nodes' efferent / afferent sets are exactly the cross-file dependencies and their inverse"""
+    """three files; a module with two symbolic USE statements, a submodule (whose first dependency is its same-file ancestor) with
+    one, and an internal procedure two levels below the module with one: the file nodes' efferent / afferent sets are exactly the cross-file dependencies and their inverse"""
     import io, contextlib
     import ford.graphs as gr
 
     ctx.encode_fn(gr.FileNode.__init__, "FileNode.__init__")
     ctx.encode_fn(gr.GraphData.register)
-    ctx.bounds.update({"use options": len(FUSE), "use slots": 3})
+    ctx.bounds.update({"use options": len(FUSE), "use slots": 4})
 
     def h(E):
-        us = [_CV.choice(E, f"u{i}", FUSE) for i in range(3)]
-        want = _choice.apply(file_rule, us[0][1], us[1][1], us[2][1])
+        us = [_CV.choice(E, f"u{i}", FUSE) for i in range(4)]
+        want = _choice.apply(file_rule, us[0][1], us[1][1], us[2][1], us[3][1])
         E.e.snapshot = lambda m: {"uses": [_choice.value_in_model(m, u)[0] for u in us], "expected": _choice.value_in_model(m, want)}
         with contextlib.redirect_stdout(io.StringIO()), contextlib.redirect_stderr(io.StringIO()):
-            got = _parserh.project(_file_files(us[0][0], us[1][0], us[2][0]), post=_file_observe, post_modules=(gr,), **GSET3)
+            got = _parserh.project(_file_files(us[0][0], us[1][0], us[2][0], us[3][0]), post=_file_observe, post_modules=(gr,), **GSET3)
         E.reachable("nodes")
         E.require(_choice.apply(lambda w_: got == w_, want), "file dependency sets differ from the declared USE relation")
 
